@@ -32,8 +32,80 @@ import (
 // ---------------------------------------------------------------- instances
 
 type inst struct {
-	ex  *kv.KVExecutor
-	dir string
+	ex   *kv.KVExecutor
+	dir  string
+	name string
+	// every byte slice the executor handed out (roots, genesis roots, mempool transactions), as the caller
+	// holds it (ref: the very slice, never copied, never written by the harness) next to a private copy
+	// taken at return time.  The node keeps such slices (State.AppHash = the slice ExecuteTxs returned), so a
+	// value that changes after it was returned changes a root of the past.
+	kept []keptSlice
+}
+
+type keptSlice struct {
+	ref, cp []byte
+	what    string
+}
+
+func clone(b []byte) []byte {
+	if b == nil {
+		return nil
+	}
+	return append([]byte{}, b...)
+}
+
+func cloneList(l [][]byte) [][]byte {
+	if l == nil {
+		return nil
+	}
+	out := make([][]byte, len(l))
+	for i := range l {
+		out[i] = clone(l[i])
+	}
+	return out
+}
+
+func (i *inst) keep(what string, b []byte) {
+	if len(b) == 0 {
+		return
+	}
+	i.kept = append(i.kept, keptSlice{ref: b, cp: clone(b), what: what})
+}
+
+// checkKept: a slice that was returned earlier must still read what it read when it was returned.
+func (i *inst) checkKept(c *hx.Ctx, after string) {
+	if i == nil {
+		return
+	}
+	for n := range i.kept {
+		k := &i.kept[n]
+		if bytes.Equal(k.ref, k.cp) {
+			continue
+		}
+		clause := "root"
+		if strings.HasPrefix(k.what, "GetTxs") {
+			clause = "gettxs"
+		}
+		c.Report("C15/"+clause+"/returned-slice-changed-later", fmt.Sprintf("instance %s: the slice returned by %s read %q when it was returned and reads %q after a later %s: the executor still writes to memory it handed out (a caller that keeps the slice, as the block manager does with AppHash, sees a past value change)", i.name, k.what, short(k.cp), short(k.ref), after))
+		k.cp = clone(k.ref)
+	}
+}
+
+func short(b []byte) []byte {
+	if len(b) > 200 {
+		return append(clone(b[:200]), "..."...)
+	}
+	return b
+}
+
+// scribble overwrites memory the CALLER owns and passed to the executor (transactions, previous state
+// root): after the call returned the caller may reuse it, nothing the executor does later may depend on it.
+func scribble(bs ...[]byte) {
+	for _, b := range bs {
+		for i := range b {
+			b[i] = b[i]*31 + 0x5b
+		}
+	}
 }
 
 var dirSeq int
@@ -57,6 +129,27 @@ func newInst() (*inst, error) {
 		return nil, err
 	}
 	return &inst{ex: ex, dir: dir}, nil
+}
+
+// exec / initChain / getTxs: the executor's calls that return byte slices; what they return is kept (checkKept).
+func (i *inst) exec(txs [][]byte, h uint64, prev []byte) ([]byte, error) {
+	r, _, err := i.ex.ExecuteTxs(ctx, txs, h, t0, prev)
+	i.keep(fmt.Sprintf("ExecuteTxs(%d txs)", len(txs)), r)
+	return r, err
+}
+
+func (i *inst) initChain() ([]byte, uint64, error) {
+	g, gas, err := i.ex.InitChain(ctx, t0, 1, "c15")
+	i.keep("InitChain", g)
+	return g, gas, err
+}
+
+func (i *inst) getTxs() ([][]byte, error) {
+	txs, err := i.ex.GetTxs(ctx)
+	for n, tx := range txs {
+		i.keep(fmt.Sprintf("GetTxs[%d]", n), tx)
+	}
+	return txs, err
 }
 
 // closeDB closes the executor's datastore. KVExecutor has no Close method and the field is
@@ -105,8 +198,8 @@ var t0 = time.Unix(1700000000, 0)
 // rootOf asks the executor for its current state root: ExecuteTxs with an empty block stages
 // nothing, commits nothing and returns computeStateRoot().
 func (i *inst) rootOf() ([]byte, error) {
-	r, _, err := i.ex.ExecuteTxs(ctx, nil, 0, t0, nil)
-	return r, err
+	r, err := i.exec(nil, 0, nil)
+	return clone(r), err
 }
 
 // ---------------------------------------------------------------- oracle pieces (independent of the model)
@@ -250,8 +343,26 @@ func (s *scen) execOn(c *hx.Ctx, i *inst, name string, txs [][]byte, before []by
 	watch := keysOf(txs)
 	snap0 := snapshot(i, watch)
 	s.height++
-	r, _, err := i.ex.ExecuteTxs(ctx, txs, s.height, t0, before)
-	after = r
+	// the executor gets slices of its own (as a caller that decoded a block would pass them) ...
+	in, prev := cloneList(txs), clone(before)
+	r, err := i.exec(in, s.height, prev)
+	after = clone(r)
+	// ... and the caller reuses that memory as soon as the call has returned: nothing may depend on it any more
+	resv := []string{"/genesis/initialized", "/genesis/stateroot", "/finalizedHeight"}
+	snapR := snapshot(i, resv)
+	scribble(in...)
+	scribble(prev)
+	if err == nil {
+		again, e2 := i.rootOf()
+		switch {
+		case e2 != nil:
+			c.Report("C15/root/unavailable-after-exec", e2.Error())
+		case !bytes.Equal(again, after):
+			c.Report("C15/input/executor-kept-callers-slice", fmt.Sprintf("instance %s: ExecuteTxs returned root %q; after the caller overwrote the transaction slices (and the prevStateRoot slice) it had passed, the root reads %q: the executor kept a reference to the caller's memory", name, short(after), short(again)))
+		case !reflect.DeepEqual(snapR, snapshot(i, resv)):
+			c.Report("C15/input/executor-kept-callers-slice", fmt.Sprintf("instance %s: a reserved entry changed when the caller overwrote the slices it had passed to ExecuteTxs", name))
+		}
+	}
 	if err != nil {
 		var e2 error
 		after, e2 = i.rootOf()
@@ -313,6 +424,12 @@ func runC15(c *hx.Ctx) {
 			var e1, e2 error
 			s.a, e1 = newInst()
 			s.b, e2 = newInst()
+			if s.a != nil {
+				s.a.name = "a"
+			}
+			if s.b != nil {
+				s.b.name = "b"
+			}
 			if e1 != nil || e2 != nil {
 				s.dead = true
 				c.Report("C15/setup/new-executor-failed", fmt.Sprint(e1, e2))
@@ -399,7 +516,7 @@ func runC15(c *hx.Ctx) {
 			case "gettxs":
 				c.Hit("gettxs")
 				return sc.bOnly(c, "gettxs", func() string {
-					txs, err := sc.b.ex.GetTxs(ctx)
+					txs, err := sc.b.getTxs()
 					if err != nil {
 						return "err:other"
 					}
@@ -408,7 +525,7 @@ func runC15(c *hx.Ctx) {
 			case "init":
 				c.Hit("init")
 				return sc.bOnly(c, "initchain", func() string {
-					g, gas, err := sc.b.ex.InitChain(ctx, t0, 1, "c15")
+					g, gas, err := sc.b.initChain()
 					if err != nil {
 						return errClass(err)
 					}
@@ -450,6 +567,9 @@ func runC15(c *hx.Ctx) {
 			}
 			return "bad-op"
 		})
+		// aliasing monitor: whatever either executor returned so far must still read the same
+		sc.a.checkKept(c, o.Verb)
+		sc.b.checkKept(c, o.Verb)
 		c.Emit("%s", line)
 	}
 }
